@@ -34,13 +34,64 @@ type State struct {
 	pc    Term
 	cells map[cellKey]Value
 	heap  Heap
-	epoch int
-	gen   map[string]int // per key-prefix generation of default arrays (copy on write)
+	defs  []defSrc // where not-yet-materialised heap arrays come from (see heapGet)
 	alloc Term
 }
 
+// defSrc names the default (not yet accessed) heap arrays of a state: under pc, the
+// array for key k is the constant H<epoch>.<gen of the longest bumped prefix of k>|k.
+type defSrc struct {
+	pc    Term
+	epoch int
+	gen   map[string]int
+}
+
+func (d defSrc) nameFor(key string) string {
+	g := 0
+	for p, n := range d.gen {
+		if strings.HasPrefix(key, p) && n > g {
+			g = n
+		}
+	}
+	return fmt.Sprintf("H%d.%d|%s", d.epoch, g, key)
+}
+
+// bumpPrefix makes every default array under prefix a fresh unknown.
+func (x *Exec) bumpPrefix(st *State, prefix string) {
+	x.epochCtr++
+	nd := make([]defSrc, len(st.defs))
+	for i, d := range st.defs {
+		ng := make(map[string]int, len(d.gen)+1)
+		for k, v := range d.gen {
+			ng[k] = v
+		}
+		ng[prefix] = x.epochCtr
+		nd[i] = defSrc{d.pc, d.epoch, ng}
+	}
+	st.defs = nd
+}
+
+// bumped reports the prefixes whose defaults differ from those of the other state.
+func bumpedPrefixes(now, then *State) (prefixes []string, all bool) {
+	base := then.defs[0]
+	seen := map[string]bool{}
+	for _, d := range now.defs {
+		if d.epoch != base.epoch {
+			return nil, true
+		}
+		for p, n := range d.gen {
+			if base.gen[p] != n && !seen[p] {
+				seen[p] = true
+				prefixes = append(prefixes, p)
+			}
+		}
+	}
+	sort.Strings(prefixes)
+	return prefixes, false
+}
+
 func (s *State) clone() *State {
-	n := &State{pc: s.pc, heap: s.heap.clone(), epoch: s.epoch, alloc: s.alloc, gen: s.gen}
+	n := &State{pc: s.pc, heap: s.heap.clone(), defs: s.defs, alloc: s.alloc}
 	n.cells = make(map[cellKey]Value, len(s.cells))
 	for k, v := range s.cells {
 		n.cells[k] = v
@@ -87,6 +138,7 @@ type Exec struct {
 	specsUsed map[string]bool
 	ghost    map[string]Value
 	staleMsgs []string
+	root     *frame
 }
 
 type candidate struct {
@@ -265,6 +317,8 @@ func (x *Exec) safety(fr *frame, st *State, kind string, pos token.Pos, goal Ter
 		text = "?"
 	}
 	x.oblige(fr, st, kind, text, pos, goal, "safety", "")
+	// assert-then-assume: execution continues only if the operation did not panic
+	x.c.AddFact(st.pc, goal, "passed "+kind)
 }
 
 // ---------------------------------------------------------------------------
@@ -516,19 +570,32 @@ func (x *Exec) mergeStates(edges []inEdge, b *ssa.BasicBlock) *State {
 		al = ite(pcs[i], edges[i].st.alloc, al)
 	}
 	out.alloc = c.Name("alloc", al)
-	// epoch
-	out.epoch = last.epoch
-	same := true
-	out.gen = last.gen
-	for _, e := range edges {
-		if e.st.epoch != last.epoch || !sameGen(e.st.gen, last.gen) {
-			same = false
+	// default sources: union, guarded by the predecessors' path conditions
+	for i, e := range edges {
+		for _, d := range e.st.defs {
+			dpc := d.pc
+			if len(e.st.defs) == 1 {
+				dpc = pcs[i]
+			} else {
+				dpc = and(pcs[i], d.pc)
+			}
+			merged := false
+			for j := range out.defs {
+				if out.defs[j].epoch == d.epoch && sameGen(out.defs[j].gen, d.gen) {
+					out.defs[j].pc = c.Name("dpc", or(out.defs[j].pc, dpc))
+					merged = true
+					break
+				}
+			}
+			if !merged {
+				out.defs = append(out.defs, defSrc{dpc, d.epoch, d.gen})
+			}
 		}
 	}
-	if !same {
+	if len(out.defs) > 6 {
 		x.epochCtr++
-		out.epoch = x.epochCtr
-		out.gen = nil
+		out.defs = []defSrc{{tTrue, x.epochCtr, nil}}
+		c.Assume["heap defaults forgotten at a join with many differing histories"] = true
 	}
 	// cells
 	keys := map[cellKey]bool{}
@@ -581,13 +648,17 @@ func (x *Exec) heapGet(st *State, key string, sort Sort) Term {
 	if t, ok := st.heap[key]; ok {
 		return t
 	}
-	g := 0
-	for p, n := range st.gen {
-		if strings.HasPrefix(key, p) && n > g {
-			g = n
+	var t Term
+	for i := len(st.defs) - 1; i >= 0; i-- {
+		d := st.defs[i]
+		ct := x.c.Const(d.nameFor(key), sort)
+		if i == len(st.defs)-1 {
+			t = ct
+		} else {
+			t = ite(d.pc, ct, t)
 		}
 	}
-	t := x.c.Const(fmt.Sprintf("H%d.%d|%s", st.epoch, g, key), sort)
+	t = x.c.Name("Hd", t)
 	st.heap[key] = t
 	if x.c.heapKeys == nil {
 		x.c.heapKeys = map[string]Sort{}
@@ -639,8 +710,7 @@ func sameGen(a, b map[string]int) bool {
 // havocAll forgets the whole heap.
 func (x *Exec) havocAll(st *State, why string) {
 	x.epochCtr++
-	st.epoch = x.epochCtr
-	st.gen = nil
+	st.defs = []defSrc{{tTrue, x.epochCtr, nil}}
 	st.heap = Heap{}
 	na := x.c.Fresh("alloc", SInt)
 	x.c.AddFact(tTrue, mk(SBool, ">=", na, st.alloc), "alloc monotone")
